@@ -70,13 +70,25 @@ def evalrows(rows, tpt, poly):
 MUTATED = []
 
 
-def impl_mra(s_rows, h_rows, L_rows, n, poly, symbolic):
+def impl_mra(s_rows, h_rows, L_rows, n, poly, symbolic, opts=None):
+    opts = opts or {}
     _, _, sc = mods()
     with warnings.catch_warnings():
         warnings.simplefilter('ignore')
         s = to_obj(s_rows, n, poly, symbolic)
+        if symbolic and opts.get('zero_values'):
+            # the Variable coefficients currently HOLD the value 0 (left over from an earlier solve): they are still unknowns
+            s.c.value = np.zeros(len(s_rows))
         h = to_obj(h_rows, n, poly)
-        L = to_obj(L_rows, n, poly)
+        if opts.get('stripped_row') is not None:
+            # L is obtained by without_zeros() from a function that carried an explicit zero coefficient on one more exponent and whose
+            # coefficient table had already been consulted: that exponent is NOT an exponent of L
+            L0 = to_obj(L_rows + [(opts['stripped_row'], Fraction(0))], n, poly)
+            _ = L0.alpha_c
+            _ = L0.query_coeff(np.array([float(v) for v in opts['stripped_row']]))
+            L = L0.without_zeros()
+        else:
+            L = to_obj(L_rows, n, poly)
         snap = [(np.asarray(o.alpha, dtype=float).copy(), None if symbolic and o is s else np.asarray(o.c, dtype=float).copy()) for o in (s, h, L)]
         try:
             C = sc.moment_reduction_array(s, h, L)
@@ -97,9 +109,9 @@ def impl_mra(s_rows, h_rows, L_rows, n, poly, symbolic):
     return vlib.Some([[Fraction(v) for v in r] for r in np.asarray(C, dtype=float).tolist()])
 
 
-def oracle_mra(s_rows, h_rows, L_rows, n, poly, symbolic, rng):
+def oracle_mra(s_rows, h_rows, L_rows, n, poly, symbolic, rng, opts=None):
     """property statement on the implementation; None if it holds"""
-    out = impl_mra(s_rows, h_rows, L_rows, n, poly, symbolic)
+    out = impl_mra(s_rows, h_rows, L_rows, n, poly, symbolic, opts)
     Lset = {tuple(a) for a, _ in L_rows}
     allpairs = {tuple(x + y for x, y in zip(a, b)) for a, _ in s_rows for b, hc in h_rows if hc != 0}
     if out is None:
@@ -186,9 +198,16 @@ def gen_case(rng):
     extra = [r for r, _ in gen_sig_rows(rng, n, rng.randint(0, 2), poly) if r not in prod]
     Lr = prod + extra
     rng.shuffle(Lr)
-    kind = rng.choice(['full', 'full', 'full', 'missing', 'cancel'])
+    kind = rng.choice(['full', 'full', 'full', 'missing', 'cancel', 'zero_coeff'])
+    opts = {'zero_values': symbolic and rng.random() < 0.4, 'stripped_row': None}
     if kind == 'missing' and len(Lr) > 1:
-        Lr.pop(rng.randrange(len(Lr)))
+        gone = Lr.pop(rng.randrange(len(Lr)))
+        if rng.random() < 0.5:
+            opts['stripped_row'] = gone
+    if kind == 'zero_coeff':
+        # a multiplier given directly as (alpha, c) with an explicit zero coefficient: C must not depend on the values in s.c
+        k0 = rng.randrange(len(s_rows))
+        s_rows[k0] = (s_rows[k0][0], Fraction(0))
     if kind == 'cancel':
         # s = (y^a + 1), h = (y^a - 1): with numeric s_h the row a cancels in the product; with Variable coefficients (or any
         # surrogate for them) it does not, and a reference basis without a must be refused
@@ -197,21 +216,24 @@ def gen_case(rng):
         h_rows = [(a, Fraction(1)), ([Fraction(0)] * n, Fraction(-1))]
         Lr = [[Fraction(2)] * n, [Fraction(0)] * n] + ([a] if rng.random() < 0.5 else [])
     L_rows = [(r, Fraction(1)) for r in Lr]
-    return n, poly, symbolic, s_rows, h_rows, L_rows, kind
+    return n, poly, symbolic, s_rows, h_rows, L_rows, kind, opts
 
 
 def run(ctx):
     cases = []
     for _ in range(ctx.n(500, 5000)):
-        n, poly, symbolic, s_rows, h_rows, L_rows, kind = gen_case(ctx.rng)
-        out = impl_mra(s_rows, h_rows, L_rows, n, poly, symbolic)
+        n, poly, symbolic, s_rows, h_rows, L_rows, kind, opts = gen_case(ctx.rng)
+        out = impl_mra(s_rows, h_rows, L_rows, n, poly, symbolic, opts)
         ctx.count('mra.kind', kind)
+        ctx.count('mra.variables_hold_zero', bool(opts['zero_values']))
+        ctx.count('mra.L_from_without_zeros', opts['stripped_row'] is not None)
         ctx.count('mra.mode', 'symbolic' if symbolic else 'numeric')
         ctx.count('mra.result', 'error' if out is None else 'matrix')
         if len(s_rows) >= 2 and len(h_rows) >= 2:
             ctx.nontrivial.add(vlib.sha([jrows(s_rows), jrows(h_rows), jrows(L_rows), symbolic]))
-        cases.append(({'n': n, 'poly': poly, 'symbolic': symbolic, 's': jrows(s_rows), 'h': jrows(h_rows), 'L': jrows(L_rows)},
-                      cq((symbolic, Nat(n), s_rows, h_rows, L_rows)), cq(out), (s_rows, h_rows, L_rows, n, poly, symbolic)))
+        jopts = {'zero_values': bool(opts['zero_values']), 'stripped_row': None if opts['stripped_row'] is None else [str(v) for v in opts['stripped_row']]}
+        cases.append(({'n': n, 'poly': poly, 'symbolic': symbolic, 's': jrows(s_rows), 'h': jrows(h_rows), 'L': jrows(L_rows), 'opts': jopts},
+                      cq((symbolic, Nat(n), s_rows, h_rows, L_rows)), cq(out), (s_rows, h_rows, L_rows, n, poly, symbolic), opts))
     ctx.evaluations += len(cases)
     ctx.suites['arguments_unchanged'] = {'cases': len(cases), 'failures': len(MUTATED)}
     if MUTATED:
@@ -227,7 +249,7 @@ def run(ctx):
     else:
         ctx.samples.append({'suite': 'mra', 'input': cases[len(cases) // 2][0], 'impl': cases[len(cases) // 2][2][:300]})
         for idx in mism[:3]:
-            why = oracle_mra(*cases[idx][3], ctx.rng)
+            why = oracle_mra(*cases[idx][3], ctx.rng, cases[idx][4])
             model_out = vlib.coq_show(HEADER, "(fun x => let '(sy, n, s, h, L) := x in moment_reduction_array sy n s h L) %s" % cases[idx][1])
             ctx.problem('correspondence', 'suite mra: model and implementation disagree on %s; impl=%s model=%s; oracle: %s'
                         % (cases[idx][0], cases[idx][2][:400], model_out[:400], why or 'identity holds on this input'),
@@ -280,10 +302,11 @@ def run(ctx):
 
 def search(ctx):
     for _ in range(1500):
-        n, poly, symbolic, s_rows, h_rows, L_rows, kind = gen_case(ctx.rng)
-        why = oracle_mra(s_rows, h_rows, L_rows, n, poly, symbolic, ctx.rng)
+        n, poly, symbolic, s_rows, h_rows, L_rows, kind, opts = gen_case(ctx.rng)
+        why = oracle_mra(s_rows, h_rows, L_rows, n, poly, symbolic, ctx.rng, opts)
         if why:
-            return {'suite': 'mra', 'input': {'n': n, 'poly': poly, 'symbolic': symbolic, 's': jrows(s_rows), 'h': jrows(h_rows), 'L': jrows(L_rows)},
+            jopts = {'zero_values': bool(opts['zero_values']), 'stripped_row': None if opts['stripped_row'] is None else [str(v) for v in opts['stripped_row']]}
+            return {'suite': 'mra', 'input': {'n': n, 'poly': poly, 'symbolic': symbolic, 's': jrows(s_rows), 'h': jrows(h_rows), 'L': jrows(L_rows), 'opts': jopts},
                     'property_failure': why}
         g_rows = gen_sig_rows(ctx.rng, n, ctx.rng.randint(1, 4), poly)
         ref = [list(a) for a, _ in g_rows]
@@ -299,7 +322,9 @@ def replay(payload):
     inp = payload.get('input') or {}
     s, x = inp.get('suite'), inp.get('input')
     if s == 'mra':
-        why = oracle_mra(unj(x['s']), unj(x['h']), unj(x['L']), x['n'], x['poly'], x['symbolic'], random.Random(0))
+        jo = x.get('opts') or {}
+        opts = {'zero_values': jo.get('zero_values', False), 'stripped_row': None if jo.get('stripped_row') is None else [Fraction(v) for v in jo['stripped_row']]}
+        why = oracle_mra(unj(x['s']), unj(x['h']), unj(x['L']), x['n'], x['poly'], x['symbolic'], random.Random(0), opts)
     elif s == 'rcv':
         why = oracle_rcv(unj(x['g']), [[Fraction(a) for a in r] for r in x['ref']], x['n'], x['poly'])
     else:
